@@ -50,6 +50,11 @@ type Input struct {
 	Pipeline string `json:"pipeline"` // create | query | update | delete | row | raw
 	SkipTx   bool   `json:"skip_tx"`  // Config.SkipDefaultTransaction (Match guards are false)
 	Steps    []Step `json:"steps"`    // built-in registrations first, then the history
+	// how the pipeline is fired after every call ("" = the plain finisher call):
+	// scopes (through db.Scopes), nilptr (a nil *rec as value: ErrInvalidValue), ptrptr (pointer to a nil
+	// pointer: Execute allocates), badmodel (an int as model: schema parse error), modelonly (value only in
+	// Model).  Whatever Execute does with the statement, the registered callbacks run, in order.
+	Fire string `json:"fire,omitempty"`
 }
 
 type Fire struct {
@@ -100,20 +105,53 @@ func runCase(in Input, emit func(Outcome)) {
 	var log []Fire
 	fire := func() []Fire {
 		log = []Fire{}
+		d := db
+		if in.Fire == "scopes" {
+			d = db.Scopes(func(x *gorm.DB) *gorm.DB { return x })
+		}
+		var nilp *rec
+		var val interface{} = &rec{ID: 1, V: 1}
+		switch in.Fire {
+		case "nilptr":
+			val = nilp
+		case "ptrptr":
+			val = &nilp
+		case "badmodel":
+			val = 42
+		}
 		switch in.Pipeline {
 		case "create":
-			db.Create(&rec{V: 1})
+			if in.Fire == "modelonly" {
+				d.Model(&rec{V: 1}).Create(nil)
+			} else {
+				d.Create(val)
+			}
 		case "query":
-			var rs []rec
-			db.Find(&rs)
+			switch in.Fire {
+			case "", "scopes":
+				var rs []rec
+				d.Find(&rs)
+			case "modelonly":
+				d.Model(&rec{}).Find(nil)
+			default:
+				d.Find(val)
+			}
 		case "update":
-			db.Model(&rec{ID: 1}).Update("v", 2)
+			if in.Fire == "" || in.Fire == "scopes" || in.Fire == "modelonly" {
+				d.Model(&rec{ID: 1}).Update("v", 2)
+			} else {
+				d.Model(val).Update("v", 2)
+			}
 		case "delete":
-			db.Delete(&rec{ID: 1})
+			if in.Fire == "modelonly" {
+				d.Model(&rec{ID: 1}).Delete(nil)
+			} else {
+				d.Delete(val)
+			}
 		case "row":
-			db.Table("recs").Row()
+			d.Table("recs").Row()
 		case "raw":
-			db.Exec("SELECT 1")
+			d.Exec("SELECT 1")
 		}
 		return log
 	}
